@@ -385,6 +385,62 @@ def sim_part(ctx, d):
     return stats, viol, None
 
 
+def cc_part(ctx, d):
+    """Membership-change schedules (ProposeConfChange add/remove/joint, applied at commit): outside
+    the proved model, so only the safety predicates on the observed states are evaluated."""
+    batches = [(7000000, 500, 400)] if ctx.tier == "quick" else [(7000000, 15000, 400), (8000000, 200, 3000)]
+    tot = ev = conf = leaders = 0
+    viol = None
+    bi = 0
+    for first, count, nev in batches:
+        step = max(1, 800000 // nev)
+        k = first
+        while k < first + count and viol is None:
+            c = min(step, first + count - k)
+            b = d / ("cc%d" % bi)
+            b.mkdir()
+            bi += 1
+            rc, out = lib.sh("%s simcc . %d %d %d %d" % (lib.BUILD / HARNESS, ctx.seed, k, c, nev), cwd=b, timeout=3000)
+            if rc != 0:
+                return {}, None, "harness_raft simcc failed: " + out[-2000:]
+            rc, out = lib.sh("%s monitor traces.txt monitor.txt" % (lib.BUILD / RUNNER), cwd=b, timeout=6000)
+            if rc != 0:
+                return {}, None, "raftrun monitor failed: " + out[-2000:]
+            for line in (b / "monitor.txt").read_text().splitlines():
+                t = line.split()
+                if len(t) < 3:
+                    continue
+                tot += 1
+                if t[2] == "SAFE":
+                    kv = dict(x.split("=", 1) for x in t[3:] if "=" in x)
+                    ev += int(kv["events"])
+                    conf += int(kv["confcommitted"])
+                    leaders += int(kv["leaders"])
+                elif viol is None:
+                    header, evs = schedule_of(b / "traces.txt", t[1])
+                    fe = fail_event(line)
+                    if fe:
+                        evs = evs[:fe]
+                    shr, v = sim_shrink(b, header, evs, mode="monitor")
+                    v2, trace = sim_eval(b, [header] + shr, tag="final", mode="monitor")
+                    if not v2 or " UNSAFE " not in v2:
+                        v2 = line + "   [NOT reproduced by the explicit replay of its schedule: original verdict shown]"
+                    viol = dict(kind="safety-violation", found_input=True, schedule=int(t[1]), seed=ctx.seed,
+                                with_membership_changes=True, reason=fail_reason(v2), verdict=v2, header=header,
+                                events=shr, trace_tail=trace.splitlines()[-14:],
+                                theorem="(no theorem covers membership change) safety predicates of C15 evaluated on the observed states of the real RawNodes",
+                                note=NOTE + "; CC i code = ProposeConfChange at node i: 100+x add voter x, 200+x remove voter x, 1000+10a+b add a / remove b via joint config")
+            if viol is None:
+                try:
+                    (b / "traces.txt").unlink()
+                except OSError:
+                    pass
+            k += c
+    stats = dict(cc_schedules=tot, cc_events=ev, cc_conf_changes_committed=conf, cc_terms_with_a_leader=leaders,
+                 cc_scope="; ".join("%d schedules x %d events" % (c, n) for _, c, n in batches))
+    return stats, viol, None
+
+
 def replay_sim(ctx, r, d):
     mode = "monitor" if r.get("kind") == "safety-violation" else "trace"
     v, trace = sim_eval(d, [r["header"]] + r["events"], tag="replay", mode=mode)
@@ -427,6 +483,10 @@ def run(ctx):
             st2, viol, sb = sim_part(ctx, d)
             stats.update(st2)
             broken = broken or sb
+        if viol is None and not broken:
+            st3, viol, cb = cc_part(ctx, d)
+            stats.update(st3)
+            broken = broken or cb
     rc = 0
     if viol:
         lib.violation(PID, viol, found_input=viol.get("found_input", True))
@@ -450,6 +510,9 @@ def run(ctx):
         transitions=stats.get("sim_events", 0),
         quorum_cases=stats.get("quorum_cases", 0),
         sim=dict((k, v) for k, v in stats.items() if k.startswith("sim_") and k != "sim_samples"),
+        membership_change_exploration=dict(
+            (k, v) for k, v in stats.items() if k.startswith("cc_")) or None,
+        membership_change_note="NOT covered by a theorem: schedules with ProposeConfChange (add/remove a voter, joint add+remove with automatic leave; applied when committed) are only explored, and only the safety predicates on the observed states of the real RawNodes are evaluated (raftrun monitor); these events are not counted in evaluations/distinct_nontrivial",
         correspondence="(D) quorum.{MajorityConfig,JointConfig}.{CommittedIndex,VoteResult} (built from VERIF_REPO working tree) vs extracted Gallina majority_/joint_ functions, compared on every case; (V) raft.RawNode + MemoryStorage (built from VERIF_REPO) vs extracted check_step on every event",
     ))
     lib.write_evidence(PID, ctx.tier, ctx.seed, cov,
